@@ -165,6 +165,24 @@ class Unit:
         raw = it.text
         sha = hashlib.sha256(raw.encode()).hexdigest()[:16]
         text = self.apply_rewrites(raw)
+        if 'mutself' in flags:
+            # R10: fn f(mut self, ..) {B}  ->  fn f(self, ..) { let mut self_ = self; B[self -> self_] }
+            mm = mask(text)
+            hb = mm.index('{')
+            head, rest = text[:hb + 1], text[hb + 1:]
+            if not re.search(r'\(\s*mut self\b', head):
+                raise WeaveError('%s: mutself flag but no `mut self` parameter' % spec)
+            head = re.sub(r'\(\s*mut self\b', '(self', head, count=1)
+            rm = mask(rest)
+            out_chars = []
+            last = 0
+            for mt in re.finditer(r'\bself\b', rm):
+                out_chars.append(rest[last:mt.start()])
+                out_chars.append('self_')
+                last = mt.end()
+            out_chars.append(rest[last:])
+            text = head + ' let mut self_ = self;' + ''.join(out_chars)
+            self.rewrite_counts['R10'] = self.rewrite_counts.get('R10', 0) + 1
         m = mask(text)
         # header end
         depth = 0
@@ -243,18 +261,28 @@ class Unit:
                     if k >= len(loops):
                         raise WeaveError('%s: contract names loop %d but body has %d loops' % (label, k, len(loops)))
                     inserts.append((loops[k][2], val, {'k': 'contract', 'item': label, 'sec': 'loop%d' % k}))
-                if isinstance(key, tuple) and key[0] == 'proof':
-                    _, where, n, needle = key
-                    pos = -1
-                    start = 0
-                    for _ in range(n + 1):
-                        pos = body.find(needle, start)
-                        if pos < 0:
-                            raise WeaveError('%s: proof anchor not found: %r' % (label, needle))
-                        start = pos + 1
-                    at = pos + len(needle) if where == 'after' else pos
+                if isinstance(key, tuple) and key[0] in ('proof', 'ghost'):
+                    kind, where, n, needle = key
+                    if where == 'end':
+                        # end of the function body, before a trailing expression is not supported:
+                        # inserted after the last statement terminator ';' or '}' of the body
+                        stripped = bm.rstrip()
+                        if not (stripped.endswith(';') or stripped.endswith('}')):
+                            raise WeaveError('%s: proof end: body ends in a tail expression' % label)
+                        at = len(stripped)
+                    else:
+                        pos = -1
+                        start = 0
+                        for _ in range(n + 1):
+                            pos = body.find(needle, start)
+                            if pos < 0:
+                                raise WeaveError('%s: proof anchor not found: %r' % (label, needle))
+                            start = pos + 1
+                        at = pos + len(needle) if where == 'after' else pos
                     val2 = [(v, l) for v, l in val]
-                    inserts.append((at, [(-1, 'proof {')] + val2 + [(-1, '}')], {'k': 'contract', 'item': label, 'sec': 'proof'}))
+                    if kind == 'proof':
+                        val2 = [(-1, 'proof {')] + val2 + [(-1, '}')]
+                    inserts.append((at, val2, {'k': 'contract', 'item': label, 'sec': 'proof'}))
             n_loop_secs = sum(1 for k in sections if isinstance(k, tuple) and k[0] == 'loop')
             inserts.sort(key=lambda x: x[0])
             self.out.add('{', {'k': 'lit'})
@@ -323,10 +351,10 @@ class Unit:
                         a = a.strip()
                         if c == 'loop':
                             cursec = ('loop', int(a))
-                        elif c == 'proof':
+                        elif c in ('proof', 'ghost'):
                             where, _, rest = a.partition(' ')
                             n, _, needle = rest.partition(' ')
-                            cursec = ('proof', where, int(n), needle)
+                            cursec = (c, where, int(n) if n else 0, needle)
                         elif c == 'attr':
                             sections.setdefault('attr', []).append((i + 1, a))
                             cursec = None
